@@ -17,77 +17,83 @@ var vhIntrinsics map[string]intrinsicFn
 
 func init() {
 	intrinsics = map[string]intrinsicFn{
-		"strconv.AppendInt":                       intrAppendInt,
-		"strconv.AppendUint":                      intrAppendUint,
-		"strconv.FormatInt":                       intrFormatInt,
-		"strconv.FormatUint":                      intrFormatUint,
-		"strconv.Itoa":                            intrItoa,
-		"strconv.ParseUint":                       intrParseUint,
-		"strconv.AppendFloat":                     intrAppendFloat,
-		"strconv.ParseFloat":                      intrParseFloat,
-		"strconv.cloneString":                     intrIdentity,
-		"strconv.Quote":                           intrOpaqueString,
-		"strconv.QuoteToASCII":                    intrOpaqueString,
-		"strconv.QuoteToGraphic":                  intrOpaqueString,
-		"strconv.AppendQuote":                     intrOpaqueBytes,
-		"strconv.AppendQuoteToASCII":              intrOpaqueBytes,
-		"strconv.AppendQuoteToGraphic":            intrOpaqueBytes,
-		"fmt.Sprintf":                             intrSprintf,
-		"fmt.Fprintf":                             intrFprintf,
-		"fmt.Errorf":                              intrErrorf,
-		"fmt.Sprint":                              intrOpaqueString,
-		"fmt.Sprintln":                            intrOpaqueString,
-		"math.Float32frombits":                    intrIdentity,
-		"math.Float64frombits":                    intrIdentity,
-		"math.Float32bits":                        intrIdentity,
-		"math.Float64bits":                        intrIdentity,
-		"math.Trunc":                              intrFPRound("trunc64"),
-		"math.Floor":                              intrFPRound("floor64"),
-		"math.Ceil":                               intrFPRound("ceil64"),
-		"strings.genSplit":                        intrGenSplit,
-		"strings.ToLower":                         intrToLower,
-		"strings.TrimSpace":                       intrTrimSpace,
-		"strings.Join":                            intrJoin,
-		"strings.IndexByte":                       intrIndexByteStr,
-		"strings.Index":                           intrIndexStr,
-		"strings.Contains":                        intrContainsStr,
-		"strings.HasPrefix":                       nil,
-		"bytes.IndexByte":                         intrIndexByteBytes,
-		"bytes.TrimRight":                         intrTrimRight,
-		"bytes.Compare":                           intrBytesCompare,
-		"bytes.Equal":                             intrBytesEqual,
-		"internal/bytealg.MakeNoZero":             intrMakeNoZero,
-		"internal/bytealg.IndexByteString":        intrIndexByteStr,
-		"internal/bytealg.IndexByte":              intrIndexByteBytes,
-		"(*sync.Once).Do":                         intrOnceDo,
-		"(*sync.Pool).Get":                        intrPoolGet,
-		"(*sync.Pool).Put":                        intrPoolPut,
-		"(*sync.WaitGroup).Add":                   intrWGAdd,
-		"(*sync.WaitGroup).Done":                  intrWGDone,
-		"(*sync.WaitGroup).Wait":                  intrWGWait,
-		"(*sync.Mutex).Lock":                      intrMuLock,
-		"(*sync.Mutex).Unlock":                    intrMuUnlock,
-		"(*sync.RWMutex).Lock":                    intrMuLock,
-		"(*sync.RWMutex).Unlock":                  intrMuUnlock,
-		"(*sync.RWMutex).RLock":                   intrMuLock,
-		"(*sync.RWMutex).RUnlock":                 intrMuUnlock,
-		"(*sync/atomic.Value).Store":              intrAtomicValueStore,
-		"(*sync/atomic.Value).Load":               intrAtomicValueLoad,
-		"time.Unix":                               intrTimeUnix,
-		"(time.Time).Local":                       intrTimeLocal,
-		"(time.Time).In":                          intrTimeIn,
-		"(time.Time).Zone":                        intrTimeZone,
-		"time.Now":                                intrTimeNow,
-		"time.FixedZone":                          intrTimeFixedZone,
-		"(time.Time).UTC":                         intrTimeUTC,
-		"(time.Time).Date":                        intrTimeDate,
-		"(time.Time).Clock":                       intrTimeClock,
-		"(time.Time).String":                      intrOpaqueString,
-		"encoding/hex.EncodeToString":             nil,
-		"os.Getenv":                               intrOpaqueString,
-		"github.com/Breeze0806/mysql.NewDumpConn": intrNewDumpConn,
-		"(*github.com/Breeze0806/mysql.DumpConn).Close":             intrDumpConnMethod,
-		"(*github.com/Breeze0806/mysql.DumpConn).Exec":              intrDumpConnMethod,
+		"strconv.AppendInt":                             intrAppendInt,
+		"strconv.AppendUint":                            intrAppendUint,
+		"strconv.FormatInt":                             intrFormatInt,
+		"strconv.FormatUint":                            intrFormatUint,
+		"strconv.Itoa":                                  intrItoa,
+		"strconv.ParseUint":                             intrParseUint,
+		"strconv.AppendFloat":                           intrAppendFloat,
+		"strconv.ParseFloat":                            intrParseFloat,
+		"strconv.cloneString":                           intrIdentity,
+		"strconv.Quote":                                 intrOpaqueString,
+		"strconv.QuoteToASCII":                          intrOpaqueString,
+		"strconv.QuoteToGraphic":                        intrOpaqueString,
+		"strconv.AppendQuote":                           intrOpaqueBytes,
+		"strconv.AppendQuoteToASCII":                    intrOpaqueBytes,
+		"strconv.AppendQuoteToGraphic":                  intrOpaqueBytes,
+		"fmt.Sprintf":                                   intrSprintf,
+		"fmt.Fprintf":                                   intrFprintf,
+		"fmt.Errorf":                                    intrErrorf,
+		"fmt.Sprint":                                    intrOpaqueString,
+		"fmt.Sprintln":                                  intrOpaqueString,
+		"math.Float32frombits":                          intrIdentity,
+		"math.Float64frombits":                          intrIdentity,
+		"math.Float32bits":                              intrIdentity,
+		"math.Float64bits":                              intrIdentity,
+		"math.Trunc":                                    intrFPRound("trunc64"),
+		"math.Floor":                                    intrFPRound("floor64"),
+		"math.Ceil":                                     intrFPRound("ceil64"),
+		"strings.genSplit":                              intrGenSplit,
+		"strings.ToLower":                               intrToLower,
+		"strings.TrimSpace":                             intrTrimSpace,
+		"strings.Join":                                  intrJoin,
+		"strings.IndexByte":                             intrIndexByteStr,
+		"strings.Index":                                 intrIndexStr,
+		"strings.Contains":                              intrContainsStr,
+		"strings.HasPrefix":                             nil,
+		"bytes.IndexByte":                               intrIndexByteBytes,
+		"bytes.TrimRight":                               intrTrimRight,
+		"bytes.Compare":                                 intrBytesCompare,
+		"bytes.Equal":                                   intrBytesEqual,
+		"internal/bytealg.MakeNoZero":                   intrMakeNoZero,
+		"internal/bytealg.IndexByteString":              intrIndexByteStr,
+		"internal/bytealg.IndexByte":                    intrIndexByteBytes,
+		"(*sync.Once).Do":                               intrOnceDo,
+		"(*sync.Map).Load":                              intrSyncMapLoad,
+		"(*sync.Map).Store":                             intrSyncMapStore,
+		"(*sync.Map).LoadOrStore":                       intrSyncMapLoadOrStore,
+		"(*sync.Map).LoadAndDelete":                     intrSyncMapLoadAndDelete,
+		"(*sync.Map).Delete":                            intrSyncMapDelete,
+		"(*sync.Map).Range":                             intrSyncMapRange,
+		"(*sync.Pool).Get":                              intrPoolGet,
+		"(*sync.Pool).Put":                              intrPoolPut,
+		"(*sync.WaitGroup).Add":                         intrWGAdd,
+		"(*sync.WaitGroup).Done":                        intrWGDone,
+		"(*sync.WaitGroup).Wait":                        intrWGWait,
+		"(*sync.Mutex).Lock":                            intrMuLock,
+		"(*sync.Mutex).Unlock":                          intrMuUnlock,
+		"(*sync.RWMutex).Lock":                          intrMuLock,
+		"(*sync.RWMutex).Unlock":                        intrMuUnlock,
+		"(*sync.RWMutex).RLock":                         intrMuLock,
+		"(*sync.RWMutex).RUnlock":                       intrMuUnlock,
+		"(*sync/atomic.Value).Store":                    intrAtomicValueStore,
+		"(*sync/atomic.Value).Load":                     intrAtomicValueLoad,
+		"time.Unix":                                     intrTimeUnix,
+		"(time.Time).Local":                             intrTimeLocal,
+		"(time.Time).In":                                intrTimeIn,
+		"(time.Time).Zone":                              intrTimeZone,
+		"time.Now":                                      intrTimeNow,
+		"time.FixedZone":                                intrTimeFixedZone,
+		"(time.Time).UTC":                               intrTimeUTC,
+		"(time.Time).Date":                              intrTimeDate,
+		"(time.Time).Clock":                             intrTimeClock,
+		"(time.Time).String":                            intrOpaqueString,
+		"encoding/hex.EncodeToString":                   nil,
+		"os.Getenv":                                     intrOpaqueString,
+		"github.com/Breeze0806/mysql.NewDumpConn":       intrNewDumpConn,
+		"(*github.com/Breeze0806/mysql.DumpConn).Close": intrDumpConnMethod,
+		"(*github.com/Breeze0806/mysql.DumpConn).Exec":  intrDumpConnMethod,
 		"(*github.com/Breeze0806/mysql.DumpConn).NoticeDump":        intrDumpConnMethod,
 		"(*github.com/Breeze0806/mysql.DumpConn).ReadPacket":        intrDumpConnMethod,
 		"(*github.com/Breeze0806/mysql.DumpConn).HandleErrorPacket": intrDumpConnMethod,
@@ -1017,6 +1023,73 @@ func intrOnceDo(e *Exec, caller *Frame, _ *ssa.Function, args []Value) Value {
 		e.rtPanic("nil", "nil *sync.Once")
 	}
 	e.onceDo(p.cell, args[1], caller)
+	return nil
+}
+
+// sync.Map: an association list per Map variable, keys compared as interface values (dynamic type
+// and value; symbolic string / integer keys are compared by the solver like the keys of a builtin map).
+var anyType = types.NewInterfaceType(nil, nil)
+
+func (e *Exec) syncMap(v Value) *MapObj {
+	cell := syncCell(e, v, "*sync.Map")
+	m := e.ss.smaps[cell]
+	if m == nil {
+		e.nextObj++
+		m = &MapObj{kt: anyType, vt: anyType, id: e.nextObj}
+		e.ss.smaps[cell] = m
+	}
+	return m
+}
+
+func intrSyncMapLoad(e *Exec, _ *Frame, _ *ssa.Function, args []Value) Value {
+	m := e.syncMap(args[0])
+	if i := e.mapFind(m, args[1]); i >= 0 {
+		return TupleV{e.copyVal(m.vals[i]), e.ctx.True}
+	}
+	return TupleV{IfaceV{}, e.ctx.False}
+}
+
+func intrSyncMapStore(e *Exec, _ *Frame, _ *ssa.Function, args []Value) Value {
+	e.mapUpdate(e.syncMap(args[0]), args[1], args[2])
+	return nil
+}
+
+func intrSyncMapLoadOrStore(e *Exec, _ *Frame, _ *ssa.Function, args []Value) Value {
+	m := e.syncMap(args[0])
+	if i := e.mapFind(m, args[1]); i >= 0 {
+		return TupleV{e.copyVal(m.vals[i]), e.ctx.True}
+	}
+	m.keys = append(m.keys, e.copyVal(args[1]))
+	m.vals = append(m.vals, e.copyVal(args[2]))
+	return TupleV{args[2], e.ctx.False}
+}
+
+func intrSyncMapLoadAndDelete(e *Exec, _ *Frame, _ *ssa.Function, args []Value) Value {
+	m := e.syncMap(args[0])
+	if i := e.mapFind(m, args[1]); i >= 0 {
+		v := m.vals[i]
+		m.keys = append(m.keys[:i:i], m.keys[i+1:]...)
+		m.vals = append(m.vals[:i:i], m.vals[i+1:]...)
+		return TupleV{v, e.ctx.True}
+	}
+	return TupleV{IfaceV{}, e.ctx.False}
+}
+
+func intrSyncMapDelete(e *Exec, _ *Frame, _ *ssa.Function, args []Value) Value {
+	e.mapDelete(e.syncMap(args[0]), args[1])
+	return nil
+}
+
+func intrSyncMapRange(e *Exec, caller *Frame, _ *ssa.Function, args []Value) Value {
+	m := e.syncMap(args[0])
+	keys := append([]Value{}, m.keys...)
+	vals := append([]Value{}, m.vals...)
+	for i := range keys {
+		r := e.call(caller, args[1], []Value{e.copyVal(keys[i]), e.copyVal(vals[i])})
+		if t, ok := r.(*Term); ok && !e.Branch(t) {
+			break
+		}
+	}
 	return nil
 }
 
